@@ -1173,6 +1173,16 @@ Definition evo_step (s : evo_state) (op : evo_op) : evo_state * bool :=
              the renamed table -- and with it every index the table had *)
           let cols' := class_cols dc' in
           if table_exists (e_db s) orig then ({| e_decl := dc'; e_db := e_db s |}, true)
+          else if negb (sqlite_accepts dc') then
+            (* the class holds a column sqlite refuses to create (left behind by a refused
+               ADD COLUMN): CREATE TABLE fails after the rename, only the renamed original stays *)
+            ({| e_decl := dc';
+                e_db := {| db_tables := map (fun x => if str_eqb (t_name x) tn
+                                                      then {| t_name := orig; t_cols := t_cols x; t_rows := t_rows x |}
+                                                      else x) (db_tables (e_db s));
+                           db_indexes := map (fun ix => if str_eqb (snd ix) tn then (fst ix, orig) else ix)
+                                             (db_indexes (e_db s)) |} |},
+             true)
           else if forallb (fun c => mem_str c (t_cols t)) cols' then
             ({| e_decl := dc';
                 e_db := {| db_tables := map_table (e_db s) tn (fun t =>
